@@ -8,20 +8,26 @@ def _c21_nontrivial(req, out):
 
 CFG = {
     "level": "proof",
-    "level_text": "PARTIAL. Proved: append_separator_invariant_partial (over the quote-aware splitting spec, all texts/configurations) and "
-                  "fields_eq_full_refuted (finding F7 on the model of the code: text `a,` loses its final empty field). NOT proved: "
-                  "rows_eq / fields_eq / random access = iteration as model = spec for all texts (statements kept as "
-                  "fields_eq_partial_statement / random_access_partial_statement with the F7 side condition); these are checked, not "
-                  "proved: the driver compares the code model (rank/select with partition_point, cursor, DsvRows, DsvFields, "
-                  "DsvRow::get, Dsv::row) with the spec on every request, and the implementation with the code model.",
-    "level_note": "Known finding F7 (known_findings.json): disagreement class = text ends with an unquoted delimiter and the spec has "
-                  "exactly one more final empty field than the code. u32 rank counters modelled as Nat (< 4 GiB); slices total.",
-    "technique": "Lean 4 model of DsvIndexLightweight/DsvCursor/DsvRows/DsvFields/DsvRow::get + splitting spec; "
-                 "differential correspondence vs compiled model with per-input spec cross-check",
+    "level_text": "Lean 4 theorems, full statements over the model of the repaired code (fix 86e05db): fields_eq (rows()/fields() "
+                  "iteration = text split at unquoted record separators, final separator starts no row, then at unquoted delimiters, "
+                  "empty fields kept), rows_eq, row_random_access_eq_iteration (Dsv::row(r) = r-th row of the iteration, None exactly "
+                  "when out of range), get_eq_iteration / cell_eq (DsvRow::get(c) = c-th field of the iteration, all indices), "
+                  "append_separator_invariant; for all byte strings and all (d,q,n) — distinctness not needed. Route: rank1/select1 "
+                  "(cumulative counts + partition_point binary search + CTZ select) = rankB/selectB on the packed spec bits; "
+                  "select(rank(p)) = first marker at or after p; cursor iteration = reference table = spec.",
+    "level_note": "Finding F7 (final empty field lost for a text ending with an unquoted delimiter) was repaired in the repository "
+                  "(commit 86e05db); the model follows the repaired source and corpus/C21/finding-F7.case is kept as regression. "
+                  "bv_decide axioms enter only through the shared C02 kernel lemmas (popc, selectCtz). u32 rank counters are "
+                  "modelled as Nat (< 4 GiB); slices are total.",
+    "technique": "Lean 4 proof: model of DsvIndexLightweight/DsvCursor/DsvRows/DsvFields/DsvRow::get = splitting spec; "
+                 "differential correspondence vs compiled model",
     "variants": [{"features": []}],
     "lean_modules": ["SuccinctlyVerif.Props.C21"],
-    "required_theorems": ["SV.Props.C21.append_separator_invariant_partial", "SV.Props.C21.fields_eq_full_refuted"],
-    "lean_files": ["SuccinctlyVerif/Props/C21.lean", "SuccinctlyVerif/Proof/DsvNav.lean", "SuccinctlyVerif/Spec/Dsv.lean", "SuccinctlyVerif/Model/DsvNav.lean"],
+    "required_theorems": ["SV.Props.C21.fields_eq", "SV.Props.C21.rows_eq", "SV.Props.C21.row_random_access_eq_iteration",
+                          "SV.Props.C21.get_eq_iteration", "SV.Props.C21.cell_eq", "SV.Props.C21.append_separator_invariant"],
+    "allow_bv_decide": True,
+    "lean_files": ["SuccinctlyVerif/Props/C21.lean", "SuccinctlyVerif/Proof/DsvNav.lean", "SuccinctlyVerif/Proof/DsvRank.lean",
+                   "SuccinctlyVerif/Proof/DsvNavModel.lean", "SuccinctlyVerif/Proof/DsvNavAccess.lean", "SuccinctlyVerif/Spec/Dsv.lean", "SuccinctlyVerif/Model/DsvNav.lean"],
     "generated": ["common:"],
     "nontrivial": _c21_nontrivial,
     "rule": "distinct request lines with non-empty text / word list",
@@ -29,5 +35,5 @@ CFG = {
                    "range, DsvCursor operation lists (next_field/next_row/goto_row/current_field/at_end), rank1/select1 of indexes "
                    "built from raw words (zero words, bits beyond text_len), vs the compiled code model; exhaustive texts up to "
                    "length 5 over {d,q,n,a}, generated delimiter/quote/newline-rich texts with many (d,q,n) triples, t and t++n; "
-                   "every rows/get answer cross-checked against the splitting spec (MODEL-SPEC on deviation = F7 class only)",
+                   "model = spec is a theorem (fields_eq, cell_eq)",
 }
